@@ -2,7 +2,7 @@
 # usage: ./runseeds.sh C01 C02 ...   evaluates /tmp/wt_<ID>/seed_{1,2} against ./check <ID> --tier quick (sequential; needs /repo exclusively)
 mkdir -p .build/out
 for id in "$@"; do
-  for k in 1 2; do
+  for k in ${SEEDS:-1 2}; do
     d=/tmp/wt_$id/seed_$k
     [ -d "$d" ] || continue
     python3 -m vlib.seedeval "$d" "${id}_seed$k" "$id" > .build/out/seed_${id}_$k.out 2>&1
